@@ -163,3 +163,135 @@ theorem client_first_call {C : Crypto} (hC : AeadOK C) (ch : RespChoice) (p0 : B
     simp [ROut.prepend]
 
 end SSV.Stream
+
+namespace SSV.Stream
+open SSV.Gen.C01
+
+/-- the bytes the server's first `ReadFrom` takes from its source: the first bytes the source hands
+over travel with the response header — an error returned together with them is dropped when they fit
+the first-chunk buffer, and the conn's `ReadFrom` reads on —, then everything up to and including the
+first result that carries an error -/
+def Src.takenServerFirst (cap : Nat) : Src → Bytes
+  | [] => []
+  | it :: rest =>
+    if it.data.length = 0 then
+      match it.err with
+      | none => Src.takenServerFirst cap rest
+      | some _ => []
+    else if it.data.length ≤ cap then it.data ++ Src.taken rest
+    else Src.taken (it :: rest)
+
+/-- the first loop of `readFromGeneric`: it finds the first bytes the source hands over, also when
+they come together with `io.EOF` or another error. Depends on the regenerated fact
+`serverFirstReadHandlesDataFirst`. -/
+theorem firstData_spec (cap : Nat) (hc0 : 0 < cap) :
+    ∀ (fuel : Nat) (s : Src), s.size < fuel →
+      match firstData cap fuel s with
+      | (none, _, _) => Src.takenServerFirst cap s = []
+      | (some p0, _, rest) => p0.length ≠ 0 ∧ p0.length ≤ cap ∧ Src.takenServerFirst cap s = p0 ++ Src.taken rest := by
+  have hf : serverFirstReadHandlesDataFirst = true := by decide
+  intro fuel
+  induction fuel with
+  | zero => intro s h; omega
+  | succ f ih =>
+    intro s hsz
+    cases s with
+    | nil => simp [firstData, Src.read, Src.takenServerFirst]
+    | cons it rest =>
+      by_cases hle : it.data.length ≤ cap
+      · have hrd : Src.read cap (it :: rest) = ((it.data, it.err), rest) := by simp [Src.read, hle]
+        by_cases h0 : it.data.length > 0
+        · have h0' : it.data.length ≠ 0 := by omega
+          simp only [firstData, hrd, hf, h0, decide_true, Bool.true_or, Bool.and_self, ↓reduceIte]
+          exact ⟨h0', hle, by simp [Src.takenServerFirst, h0', hle]⟩
+        · have h00 : it.data.length = 0 := by omega
+          cases herr : it.err with
+          | none =>
+            have hsz' : Src.size rest < f := by simp [Src.size] at hsz; omega
+            have := ih rest hsz'
+            simp only [firstData, hrd, h0, decide_false, Bool.false_and, herr]
+            simpa [Src.takenServerFirst, h00, herr] using this
+          | some e =>
+            cases e <;> simp [firstData, hrd, h0, herr, Src.takenServerFirst, h00]
+      · have hgt : cap < it.data.length := by omega
+        have hrd : Src.read cap (it :: rest) = ((it.data.take cap, none), { it with data := it.data.drop cap } :: rest) := by
+          simp [Src.read, hle]
+        have h0 : 0 < min cap it.data.length := by omega
+        simp only [firstData, hrd, List.length_take, h0, decide_true, Option.isNone_none, Bool.or_true, Bool.and_self, ↓reduceIte]
+        refine ⟨by omega, by omega, ?_⟩
+        have hne : it.data.length ≠ 0 := by omega
+        simp only [Src.takenServerFirst, hne, ↓reduceIte, hle, Src.taken]
+        cases it.err with
+        | none => simp only []; rw [← List.append_assoc, List.take_append_drop]
+        | some e => simp only []; rw [List.take_append_drop]
+
+/-- `readFromGeneric` on a conn that has not written yet: nothing is written only if the source hands
+over nothing; otherwise the wire is a response whose first payload and chunks are exactly the bytes
+taken from the source -/
+theorem SWriter_first_readFrom (C : Crypto) (s : SWriter) (hs : s.w = none) (ch : RespChoice) (src : Src)
+    (hcap : 0 < firstCap s.respPrefix.length s.psk.length ch) :
+    (Src.takenServerFirst (firstCap s.respPrefix.length s.psk.length ch) src = [] ∧ (s.readFrom C ch src).1 = []) ∨
+    ∃ p0 cs, p0.length ≠ 0 ∧ p0.length ≤ firstCap s.respPrefix.length s.psk.length ch ∧ ValidChunks cs ∧
+      p0 ++ cs.flatten = Src.takenServerFirst (firstCap s.respPrefix.length s.psk.length ch) src ∧
+      (s.readFrom C ch src).1.flatten = respWire C s ch p0 cs := by
+  have h := firstData_spec _ hcap (src.size + 1) src (by omega)
+  cases hfd : firstData (firstCap s.respPrefix.length s.psk.length ch) (src.size + 1) src with
+  | mk o re =>
+    obtain ⟨e, rest⟩ := re
+    rw [hfd] at h
+    cases o with
+    | none =>
+      left
+      exact ⟨h, by simp [SWriter.readFrom, hs, hfd]⟩
+    | some p0 =>
+      right
+      obtain ⟨h1, h2, h3⟩ := h
+      have hsp := connReadFrom_spec rest
+      have hem := emit_flatten C ⟨C.kdf s.psk ch.salt, 2⟩ (connReadFrom rest).1
+      refine ⟨p0, (connReadFrom rest).1, h1, h2, hsp.1, by rw [hsp.2.1, h3], ?_⟩
+      simp only [SWriter.readFrom, hs, hfd, initWrite, List.flatten_cons, respWire]
+      rw [hem.1]
+      simp only [List.append_assoc]
+
+end SSV.Stream
+
+namespace SSV.Stream
+open SSV.Gen.C01
+
+/-- the client's first call when the transport carries `respWire … p0 cs` and hands the first read its
+fixed-length part -/
+theorem client_first_call_respWire {C : Crypto} (hC : AeadOK C) (s : SWriter) (ch : RespChoice) (p0 : Bytes) (cs : List Bytes)
+    (c : CReader) (now : Int) (hts : ClockOK ch.ts now) (hsalt : ch.salt.length = s.psk.length)
+    (hr : c.r = none) (hpsk : c.psk = s.psk) (hpre : c.respPrefix = s.respPrefix) (hrs : c.reqSalt = s.reqSalt)
+    (hrsl : s.reqSalt.length = s.psk.length)
+    (h0 : p0.length ≠ 0) (hl : p0.length ≤ streamMaxPayloadSize) (hv : ValidChunks cs)
+    (hfr : firstRead c.allowSeg (c.respPrefix.length + c.psk.length + TCPRequestFixedLengthHeaderLength + c.psk.length + tagSize) c.segs =
+        .ok ((respWire C s ch p0 cs).take (c.respPrefix.length + c.psk.length + TCPRequestFixedLengthHeaderLength + c.psk.length + tagSize))
+            ((respWire C s ch p0 cs).drop (c.respPrefix.length + c.psk.length + TCPRequestFixedLengthHeaderLength + c.psk.length + tagSize))) :
+    (∀ n, ∃ r', (c.read C now n).2.r = some r' ∧ Sync C r' cs ∧ (c.read C now n).1.err = none ∧
+        p0 = (c.read C now n).1.bytes ++ r'.left ∧ (0 < n → (c.read C now n).1.bytes ≠ [])) ∧
+    (c.writeTo C now).1 = .copied (p0 :: cs) none ∧
+    (∀ started, (c.tunnel C now started).1 = .copied (p0 :: cs) none) := by
+  have hlenfix : (s.respPrefix ++ ch.salt ++ C.enc (C.kdf s.psk ch.salt) 0 (respHeader ch.ts s.reqSalt p0.length)).length =
+      s.respPrefix.length + s.psk.length + TCPRequestFixedLengthHeaderLength + s.psk.length + tagSize := by
+    simp only [List.length_append, hC.enc_len, respHeader, List.length_cons, be64_length, be16_length, hsalt, hrsl]
+    have : TCPRequestFixedLengthHeaderLength = 11 := rfl
+    omega
+  rw [hpre, hpsk] at hfr
+  have htake : (respWire C s ch p0 cs).take
+      (s.respPrefix.length + s.psk.length + TCPRequestFixedLengthHeaderLength + s.psk.length + tagSize) =
+      s.respPrefix ++ ch.salt ++ C.enc (C.kdf s.psk ch.salt) 0 (respHeader ch.ts s.reqSalt p0.length) := by
+    rw [respWire, ← hlenfix, List.take_left]
+  have hdrop : (respWire C s ch p0 cs).drop
+      (s.respPrefix.length + s.psk.length + TCPRequestFixedLengthHeaderLength + s.psk.length + tagSize) =
+      C.enc (C.kdf s.psk ch.salt) 1 p0 ++ encodeChunks C (C.kdf s.psk ch.salt) 2 cs := by
+    rw [respWire, ← hlenfix, List.drop_left]
+  rw [htake, hdrop] at hfr
+  have hfr2 : firstRead c.allowSeg
+      (c.respPrefix.length + c.psk.length + TCPRequestFixedLengthHeaderLength + c.psk.length + tagSize) c.segs =
+      .ok (c.respPrefix ++ ch.salt ++ C.enc (C.kdf c.psk ch.salt) 0 (respHeader ch.ts c.reqSalt p0.length))
+          (C.enc (C.kdf c.psk ch.salt) 1 p0 ++ encodeChunks C (C.kdf c.psk ch.salt) 2 cs) := by
+    rw [hpre, hpsk, hrs]; exact hfr
+  exact client_first_call hC ch p0 cs c now hr (by rw [hpsk]; exact hsalt) hts h0 hl hv hfr2
+
+end SSV.Stream
